@@ -9,8 +9,8 @@ PROPS = {
         "level": "proof",
         "level_text": "postconditions and frames of the price/quote/statistics functions proved for all inputs from the real AST",
         "level_note": COMMON_NOTE,
-        "tasks": ["Market._update_market_price", "Market._add_order"],
-        "not_decided": [],
+        "tasks": ["Market._update_market_price", "Market._add_order", "Market._cancel_order", "Market._execute_orders", "Market._update_time", "Market.get_vwap", "Market._fill_until"],
+        "not_decided": ["per-price depth view OrderBook.get_price_volume (set/sort/dict idioms outside the subset): only exercised by the run-time monitors of the thorough tier"],
         "assumptions": [],
     },
     "C14": {
@@ -179,6 +179,10 @@ PROPS["C18"]["tasks"].append("json_extends")
 PROPS["C10"]["tasks"] += SKELETON
 PROPS["C05"]["tasks"] += RUNNER_ELEMS
 PROPS["C06"]["tasks"] += SKELETON + ["SequentialRunner._generate_sessions[session]"]
+for _p in ("C02", "C04"):
+    PROPS[_p]["tasks"].append("OrderBook.__init__ establishes BookInv")
+for _p in ("C04", "C06", "C08"):
+    PROPS[_p]["tasks"].append("Market.__init__ + setup establish the pre-first-tick MarketInv")
 for _p in ("C01", "C02", "C03", "C04", "C05", "C06", "C08", "C09", "C13", "C16"):
     PROPS[_p]["tasks"].append("census:writers")
 for k in PROPS:
